@@ -268,13 +268,27 @@ Section Balancing.
     | _, _ => []
     end.
 
-  (* def ask(self, n, tell_pending=True).  The non-committing path restores
-     the children (utils.restore) but neither the caches nor _cycle. *)
+  (* def ask(self, n, tell_pending=True).
+     Code as it was (repaired = false, findings F3/F3b): the non-committing
+     path restores the children (utils.restore) but neither the caches nor
+     _cycle.
+     Repaired code (repaired = true; /repo commits 5fc0973, b37ce43): before
+     the tentative _ask_and_tell the wrapper snapshots COPIES of its three
+     caches and the position of _cycle and puts them back in the finally
+     block, next to utils.restore putting back the children; an exception
+     still propagates (failed).  With children that are restored exactly
+     ([restore old cur = old]) this is the identity on the state with the
+     outputs of the committing variant (Proofs/BalancingTentative.v).  That
+     the snapshot of each learner type really is exact is property C09 of the
+     children, not established here. *)
   Definition bask (s : bst) (n : nat) (commit : bool) : bst * list sel :=
     if n =? 0 then (s, [])
     else if commit then ask_and_tell s n
     else let '(s', r) := ask_and_tell s n in
-         (with_kids s' (map2 (restore L) (kids s) (kids s')), r).
+         if repaired
+         then (mk (map2 (restore L) (kids s) (kids s')) (acache s) (lcache s) (pcache s)
+                  (strat s) (cyc s) (failed s'), r)
+         else (with_kids s' (map2 (restore L) (kids s) (kids s')), r).
 
   (* def remove_unfinished(self) *)
   Definition bremove_unfinished (s : bst) : bst :=
@@ -333,8 +347,9 @@ Section Balancing.
 
   Definition run (s : bst) (h : list op) : bst := fold_left (fun s o => fst (step s o)) h s.
 
-  (* quantifier domain of C15: committing asks only (the non-committing ask
-     is the subject of C09 -- finding F3) *)
+  (* histories of committing asks only: the domain of the theorems that also
+     hold of the code as it was (there the non-committing ask leaks, F3);
+     the theorems about the repaired model hold for ALL histories *)
   Definition legal_op (o : op) : bool :=
     match o with Ask _ c => c | _ => true end.
   Definition legal (h : list op) : bool := forallb legal_op h.
